@@ -260,7 +260,10 @@ def check_report(res, model, fm, out, expected_names):
         out.append(Fail('report-shape', type(res).__name__))
         return
     got_names = [r.get('name') for r in res]
-    if sorted(got_names) != sorted(expected_names):
+    known = set(METRICS.values())
+    unknown_extra = [n for n in got_names if n not in known]
+    core_names = [n for n in got_names if n in known]
+    if sorted(core_names) != sorted(expected_names) or len(set(unknown_extra)) != len(unknown_extra):
         dup = sorted(set(n for n in got_names if got_names.count(n) > 1))
         out.append(Fail('metric-names', {'duplicated': dup[:5], 'missing': sorted(set(expected_names) - set(got_names))[:5],
                                          'unexpected': sorted(set(got_names) - set(expected_names))[:5],
